@@ -44,7 +44,13 @@ func init() {
 			if g.R.Chance(0.35) {
 				nf := g.R.Range(1, 3)
 				for i := 0; i < nf; i++ {
-					switch g.R.Intn(4) {
+					switch g.R.Intn(5) {
+					case 4:
+						// retry-later answers that also hit establishment probes: a region-level
+						// condition, the shared connection is healthy
+						p.Faults = append(p.Faults, &Fault{On: "exec", N: g.R.Range(1, 12), Act: "rule",
+							Rule: &hb.Rule{Class: hb.RetryableClasses[g.R.Intn(len(hb.RetryableClasses))], Count: g.R.Range(1, 3), Server: -1,
+								Level: []string{"action", "region", "call"}[g.R.Intn(3)], Kind: "Any", Table: ts.Name}})
 					case 0:
 						p.Faults = append(p.Faults, &Fault{On: "exec", N: g.R.Range(1, 12), Act: "reset", Server: g.R.Intn(p.Layout.Servers)})
 					case 1:
